@@ -260,7 +260,7 @@ def h_any_length(kind, op):
         def inv(it, fr):
             if any(n[0] == "early-exit" for n in ctx.notes):
                 return z3.BoolVal(False)
-            cur = fr.locals.get(var_of)
+            cur = it.loop_value(fr, loop_of[1])
             adds = [e[1] for e in ctx.effects[mark:] if e[0] == "mutate" and e[1][0] is data and e[1][1] in ("append", "add")]
             if not (isinstance(cur, Obj) and cur.tag == "arbitrary-element"):
                 return z3.BoolVal(not adds and not rel)
